@@ -141,12 +141,22 @@ Definition dump_ok (o : hout) : bool :=
 Definition ns_events (evs : list (hop * hout)) : list (nsop * nsout) :=
   flat_map (fun ev => match ev with (HNs o, HONs r) => [(o, r)] | _ => [] end) evs.
 
+(** a CURIE that compaction handed out earlier can always be expanded later *)
+Fixpoint expand_known_ok (known : list str) (evs : list (hop * hout)) : bool :=
+  match evs with
+  | [] => true
+  | (HNs (NCompact _), HONs (OStr c)) :: evs' => expand_known_ok (c :: known) evs'
+  | (HNs (NExpand c), HONs OErr) :: evs' => negb (existsb (str_eqb c) known) && expand_known_ok known evs'
+  | _ :: evs' => expand_known_ok known evs'
+  end.
+
 Definition spec_ok (c : tcase) : bool :=
   let evs := combine (c_ops c) (o_outs c) in
   if c_conc c then N.eqb (o_conc c) 1 else
   Nat.eqb (length (c_ops c)) (length (o_outs c))
   && forallb dump_ok (o_outs c)
   && snapshot_ok [] (ns_events evs)
+  && expand_known_ok [] evs
   && match last_dump (o_outs c) None with
      | Some t => forallb (spec_event t) evs
      | None => true
@@ -172,3 +182,37 @@ Definition variants : list variant :=
 Definition evaluate (cs : list tcase) : list (list N) :=
   map (fun v => indices_where (fun c => negb (agree v c)) cs) variants
   ++ [ indices_where (fun c => negb (spec_ok c)) cs ].
+
+(** ** witness histories (used by the Examples of Properties/C13.v and replayed on the real code
+    by lib/props/c13.py witness_cases) *)
+From Coq Require Import String Ascii.
+Definition s2l (s : string) : str := map N_of_ascii (list_ascii_of_string s).
+Definition dss_ab : list str := [s2l "a"; s2l "b"].
+Definition mk_case (ops : list hop) (outs : list hout) : tcase :=
+  {| c_dss := dss_ab; c_ops := ops; c_conc := false; o_outs := outs; o_conc := 0 |}.
+Definition ent0 (i : string) : entity := (s2l i, None).
+Definition ent1 (i p t : string) : entity := (s2l i, Some (s2l p, s2l t)).
+
+Definition wit_alias : list hop :=
+  [HNs NFetch; HNs (NCompact (s2l "http://x.org/a#b:c")); HNs (NRead 0); HNs (NExpand (s2l "ns3:b:c")); HDump].
+Definition wit_discarded : list hop :=
+  [HBatch false (s2l "a") [ent1 "ns3:e1" "ns3:p" "ns3:t1"; ent1 "ns3:e2" "ns3:p" ""]; HCtxNew;
+   HBatch false (s2l "a") [ent0 "ns3:e3"]; HCtxTxn 0 (s2l "a") [ent0 "ns3:e4"]; HCtxTxn 0 (s2l "b") [ent0 "ns3:e5"];
+   HBatch false (s2l "b") [ent0 "ns3:e6"]; HDump].
+Definition wit_poison : list hop :=
+  [HBatch false (s2l "a") [ent1 "ns3:e1" "ns3:p" ""]; HCtxNew; HCtxTxn 0 (s2l "a") [ent0 "ns3:e2"];
+   HBatch false (s2l "a") [ent0 "ns3:e3"]; HRestart false; HBatch false (s2l "a") [ent0 "ns3:e3"]; HDump].
+Definition wit_lost : list hop :=
+  [HBatch false (s2l "a") [ent0 "ns3:e1"]; HCtxNew; HCtxTxn 0 (s2l "a") [ent1 "ns3:e1" "ns3:p" "ns5:new1"]; HDump;
+   HRestart false; HBatch false (s2l "b") [ent0 "ns3:zz"]; HBatch false (s2l "a") [ent0 "ns5:new1"]; HDump].
+
+(** what the model says the spec's verdict is when the implementation behaves like variant [v] *)
+Definition verdict (v : variant) (ops : list hop) : bool :=
+  spec_ok (mk_case ops (snd (wrun v L_go ops (w_setup v L_go dss_ab)))).
+
+Definition x_uri : str := s2l "http://x.org/a#b:c".
+Definition x_curie : str := s2l "ns3:b:c".
+Definition x_nopath : str := s2l "https://nopath".
+Definition x_nopath_parts : str * str := (s2l "https://", s2l "nopath").
+Definition x_hashslash : str := s2l "http://h/p#q/r".
+Definition x_hashslash_parts : str * str := (s2l "http://h/p#", s2l "q/r").
